@@ -238,16 +238,24 @@ class AcAbilityDecoder(
                 min_set_point,
                 max_set_point,
             ) = _STRUCT.unpack_from(buffer, offset=offset)
-            offset += _STRUCT.size
+            if following_length < _FOLLOWING_LENGTH_BASE:
+                raise comms.DecodeError(
+                    f"AC Ability following length ({following_length}) < "
+                    f"known length ({_FOLLOWING_LENGTH_BASE})"
+                )
 
             groups: Optional[set[int]] = None
-            if following_length == (
+            if following_length >= (
                 _FOLLOWING_LENGTH_BASE + _GROUP_DISPLAY_STRUCT.size
             ):
-                (encoded_groups,) = _GROUP_DISPLAY_STRUCT.unpack_from(buffer, offset)
-                offset += _GROUP_DISPLAY_STRUCT.size
-
+                (encoded_groups,) = _GROUP_DISPLAY_STRUCT.unpack_from(
+                    buffer, offset + _STRUCT.size
+                )
                 groups = self._decode_group_display(encoded_groups)
+
+            # The record says how long it is. Anything after the fields known
+            # here (a later version of the protocol) is skipped.
+            offset += _STRUCT.size - _FOLLOWING_LENGTH_BASE + following_length
 
             ac_abilities.append(
                 AcAbility(
